@@ -6,9 +6,9 @@ is REGENERATED from server/api.go on every run (one per method of the gRPC servi
 the async publish loop), under the semantics of Model/Authz.lean. The policy is
 universally quantified everywhere (casbin's `Enforce` is an arbitrary predicate).
 
-On the current code the full-strength statement is FALSE (`C15_asStated_false`): Subscribe
-sets the subscription up before it asks, the async publish loop reports a denial and
-publishes anyway, and the four consumer-group RPCs never ask. What holds is
+On the current code the full-strength statement is FALSE (`C15_asStated_false`): the four
+consumer-group RPCs never ask (Subscribe and the async publish loop were repaired and are
+no longer tolerated as violators). What holds is
 `C15_partial` (every handler that checks first — the list is computed, not hand-picked),
 `C15_asStated_iff` (the full statement holds exactly when the computed list of violators
 is empty, so a repaired tree flips it) and `C15_violators_known` (no handler outside the
@@ -33,11 +33,12 @@ def C15_asStated : Prop := ∀ h ∈ handlers, Holds h
 /-- Handlers for which the deny-all policy exhibits an effect or a missing refusal. -/
 def violators : List Handler := handlers.filter Handler.violates
 
-/-- Findings recorded for the current code (known_findings.json / fixes/): Subscribe
-(authorises after set-up), PublishAsync and its loop (report and carry on), and the
-consumer-group RPCs (no check at all). -/
+/-- Findings recorded as OPEN for the current code (known_findings.json): the
+consumer-group RPCs (no check at all). Subscribe and PublishAsync / its loop were repaired
+(fixes/C15-subscribe-order.diff, fixes/C15-publishasync-continue.diff) and must not
+violate any more. -/
 def knownViolators : List String :=
-  ["Subscribe", "PublishAsync", "publishLoop", "JoinConsumerGroup", "LeaveConsumerGroup",
+  ["JoinConsumerGroup", "LeaveConsumerGroup",
    "FetchConsumerGroupAssignments", "ReportConsumerGroupCoordinator"]
 
 /-- C15 for every handler that checks its own permission first and stops on a denial; the
@@ -97,6 +98,108 @@ theorem C15_reload (h : Handler) (hm : h ∈ handlers.filter Handler.checkedFirs
     (run polAfter cl h.body).effects = [] ∧ (run polAfter cl h.body).denied = true :=
   C15_partial h hm polAfter cl hden
 
+-- ---------------------------------------------------------------- the check itself
+
+/-- A call whose context carries NO client identity (no value under the key, or a value that
+is not a string) is never allowed while authorisation is enabled — whatever the enforcer
+would answer. Statement about the decision tree regenerated from
+`ensureAuthorizationPermission`. -/
+theorem no_identity_never_allowed (enfErr enfOk : Bool) :
+    ensureDecision.eval ⟨true, none, enfErr, enfOk⟩ ≠ .allow := by
+  rw [DTree.eval_bits]; revert enfErr enfOk; decide
+
+/-- The empty identity (a certificate without common name) is never allowed either. -/
+theorem empty_identity_never_allowed (enfErr enfOk : Bool) :
+    ensureDecision.eval ⟨true, some "", enfErr, enfOk⟩ ≠ .allow := by
+  rw [DTree.eval_bits]; revert enfErr enfOk; decide
+
+theorem allowed_bits : ∀ hasId nonEmpty ee eo : Bool,
+    (ensureDecision.evalB true hasId nonEmpty ee eo = .allow) ↔
+      (hasId = true ∧ nonEmpty = true ∧ ee = false ∧ eo = true) := by decide
+
+/-- With authorisation enabled the check allows EXACTLY when the context carries a non-empty
+client id and the enforcer answers "yes" without error for (that id, resource, action):
+every other combination of inputs is refused. -/
+theorem allowed_iff_policy_entry (i : DIn) (hen : i.enabled = true) :
+    ensureDecision.eval i = .allow ↔
+      ∃ id, i.ident = some id ∧ id ≠ "" ∧ i.enfErr = false ∧ i.enfOk = true := by
+  rw [DTree.eval_bits, hen, allowed_bits]
+  cases hi : i.ident with
+  | none => simp
+  | some s => simp [String.length_eq_zero_iff]
+
+/-- The answers the handlers' checks get from the regenerated `ensureAuthorizationPermission`
+when authorisation is enabled: context identity `ident`, policy `pol`, and `err` telling for
+which questions the enforcer fails. -/
+def allowOf (ident : Option String) (pol : Policy) (err : Client → Res → Act → Bool) :
+    Res → Act → Bool :=
+  fun r a => (ensureDecision.eval
+    ⟨true, ident, err (ident.getD "") r a, pol (ident.getD "") r a⟩).isAllow
+
+/-- C15 end to end for the handlers that check first: for EVERY context identity (absent,
+empty, unknown, known), policy and enforcer failure behaviour, unless the context carries a
+non-empty id for which the policy has the handler's (resource, action) entry, no effect is
+executed on any path and every path refuses. -/
+theorem C15_partial_identity : ∀ h ∈ handlers.filter Handler.checkedFirst,
+    ∀ (ident : Option String) (pol : Policy) (err : Client → Res → Act → Bool),
+    ¬ (∃ id, ident = some id ∧ id ≠ "" ∧ pol id h.res h.act = true) →
+    (runWith (allowOf ident pol err) h.body).effects = [] ∧
+    (runWith (allowOf ident pol err) h.body).denied = true := by
+  intro h hm ident pol err hno
+  apply checkedFirst_sound_with h (List.mem_filter.mp hm).2
+  cases hd : allowOf ident pol err h.res h.act with
+  | false => rfl
+  | true =>
+    exfalso
+    have ha : ensureDecision.eval
+        ⟨true, ident, err (ident.getD "") h.res h.act, pol (ident.getD "") h.res h.act⟩ = .allow := by
+      simp only [allowOf] at hd
+      cases he : ensureDecision.eval
+        ⟨true, ident, err (ident.getD "") h.res h.act, pol (ident.getD "") h.res h.act⟩ with
+      | allow => rfl
+      | refuse w => rw [he] at hd; cases hd
+    obtain ⟨id, hid, hne, _, hok⟩ := (allowed_iff_policy_entry _ rfl).mp ha
+    simp only at hid hok
+    exact hno ⟨id, hid, hne, by simpa [hid] using hok⟩
+
+-- ---------------------------------------------------------------- streaming sessions
+
+/-- Every client-streaming RPC of the service has a per-message loop in the regenerated
+table, and every per-message loop body checks first: its authorisation call is an
+unconditional statement of the loop body (not nested under any condition), nothing but the
+`Recv` error test precedes it, and its denial branch has no effect and never falls through
+(`spineGuard`); semantically, under deny-all no path of the body has an effect or fails to
+refuse (`checkedFirst`). -/
+theorem C15_session_check_unconditional :
+    clientStreamingMethods.all (fun m => sessionLoops.any (·.name == m)) = true ∧
+    sessionLoops.all (fun l => spineGuard l.res l.act l.body && l.checkedFirst) = true := by
+  decide
+
+/-- Sessions of any length: in EVERY execution of a per-message loop over the messages of one
+session — policies may differ from message to message (reload) — every message for which an
+effect was executed (published to NATS, stream resumed) or that was not answered by a refusal
+had its own (client, stream, action) entry in the policy in force when it was processed. A
+denial of an earlier message, or a grant of an earlier message to the same stream, has no
+influence. By induction over the list of messages (`sessions_sound`). -/
+theorem C15_session_every_published_had_entry : ∀ l ∈ sessionLoops,
+    ∀ (cl : Client) (msgs : List Msg), ∀ tr ∈ sessions l.res cl l.body 0 msgs, ∀ d ∈ tr,
+      (d.effects ≠ [] ∨ d.refused = false) →
+      ∃ m, msgs[d.idx]? = some m ∧ m.pol cl m.stream l.act = true := by
+  intro l hl cl msgs tr htr d hd hbad
+  have hc : l.checkedFirst = true := by
+    have := C15_session_check_unconditional.2
+    simp only [List.all_eq_true, Bool.and_eq_true] at this
+    exact (this l hl).2
+  obtain ⟨k, m, hk, hm, hg⟩ := sessions_sound l hc cl msgs 0 tr htr d hd hbad
+  exact ⟨m, by simpa [hk] using hm, hg⟩
+
+/-- Streaming RPCs that are not client-streaming (one request, answers streamed: Subscribe)
+are covered by `C15_partial`: they are in the computed list of handlers that check first. -/
+theorem C15_server_streaming_checked_first :
+    (streamingMethods.filter (fun m => !clientStreamingMethods.contains m)).all
+      (fun m => (handlers.filter Handler.checkedFirst).any (·.name == m)) = true := by
+  decide
+
 -- ---------------------------------------------------------------- non-vacuity
 
 /-- the partial theorem is not about an empty list -/
@@ -108,6 +211,27 @@ example : (run (fun _ _ _ => true) "alice" h_CreateStream.body).effects.contains
 example : (run (fun _ _ _ => true) "alice" h_CreateStream.body).denied = false := by decide
 /-- a policy granting OTHER actions on the same resource still refuses -/
 example : (run (fun _ _ a => a != "DeleteStream") "alice" h_DeleteStream.body) = ⟨[], true⟩ := by decide
+
+/-- the session theorem is not about an empty table, and a session in which a granted message
+is published and a denied one (same stream, after a reload) is refused does exist -/
+example : sessionLoops.length ≥ 1 := by decide
+example : (sessions "req.Stream" "alice" (.seq (.check "req.Stream" "Publish" (.seq .report .cont)) (.effect "natsPublish")) 0
+    [⟨"foo", fun _ _ _ => true⟩, ⟨"foo", fun _ _ _ => false⟩]) =
+    [[⟨0, ["natsPublish"], false⟩, ⟨1, [], true⟩]] := by decide
+/-- the mutated shape (check only when the stream differs from the previous one = nested under
+a condition) has an execution that publishes a denied message, and is rejected by `spineGuard` -/
+example : [⟨0, [], true⟩, ⟨1, ["natsPublish"], false⟩] ∈
+    sessions "req.Stream" "mallory"
+      (.seq (.ite (.check "req.Stream" "Publish" (.seq .report .cont)) .skip) (.effect "natsPublish")) 0
+      [⟨"bar", fun _ _ _ => false⟩, ⟨"bar", fun _ _ _ => false⟩] := by decide
+example : spineGuard "req.Stream" "Publish"
+    (.seq (.ite (.check "req.Stream" "Publish" (.seq .report .cont)) .skip) (.effect "natsPublish")) = false := by decide
+/-- the decision tree does allow a known client with an entry, and a tree with an early
+`return nil` for a missing identity is told apart -/
+example : ensureDecision.eval ⟨true, some "alice", false, true⟩ = .allow := by decide
+example : ensureDecision.eval ⟨false, none, false, false⟩ = .allow := by decide
+example : (DTree.ite .enabled (.ite .hasID (.ite (.idVsEmpty .eq) (.ret (.refuse "id")) (.ite .enfOk (.ret .allow) (.ret (.refuse "no"))))
+    (.ret .allow)) (.ret .allow)).eval ⟨true, none, false, false⟩ = .allow := by decide
 
 -- ---------------------------------------------------------------- the defects, frozen
 
